@@ -199,6 +199,19 @@ func dRel(g *G) {
 			if g.R.Intn(3) == 0 {
 				y.E = x.E + g.R.between(-c.P-2, c.P+2)
 			}
+			if g.R.Intn(6) == 0 { // one operand negligible or zero, more than 128 orders of magnitude away (beyond the power-of-ten table)
+				gap := g.R.between(126, 400)
+				if g.R.bool() {
+					gap = -gap
+				}
+				y.E = x.E + gap
+				if g.R.bool() {
+					y = finDec(y.N, bigInt(0), y.E)
+				}
+				if g.R.bool() {
+					x, y = y, x
+				}
+			}
 			f(c, x, y)
 		}
 	}
@@ -230,6 +243,11 @@ func dRel(g *G) {
 		}
 		base := g.R.randL(c.P, 6)
 		b := bigOfLimbs(base.C)
+		if g.R.Intn(3) == 0 && c.P > 0 { // the discarded block crosses a machine-word / half-way boundary inside the list
+			b, _ = g.R.wordEdge(c.P)
+			b.Sub(b, bigInt(int64(g.R.between(0, 4))))
+			base.Hp = false
+		}
 		ev := GEv{K: "g", Gk: "mono", Op: "round", Ctx: c}
 		neg := base.N
 		var xs []Dec
